@@ -382,6 +382,9 @@ func (m *Machine) Call(fn Value, args ...Value) Value {
 
 func (m *Machine) callSSA(caller *frame, callpos token.Pos, fn *ssa.Function, args []Value, env []Value) Value {
 	fr := &frame{m: m, caller: caller, fn: fn}
+	if fn.Synthetic == "package initializer" && fn.Pkg != m.P.Pkg {
+		return nil // initialisers of imported packages are not run; their functions are modelled
+	}
 	if fn.Parent() == nil {
 		if in := m.P.lookupIntrinsic(fn); in != nil {
 			m.Stats.Intrinsics[in.Name]++
